@@ -1,4 +1,459 @@
-// C14 topology cases (filled in below)
-pub fn run_case(_rt: &tokio::runtime::Runtime, toks: &[&str]) -> String {
-    format!("unknown-kind {}", toks[0])
+// C14: CLUSTER NODES / CLUSTER SLOTS.
+//   nodes <ver> <epoch> <self> <local> <peer> <states>
+//        the real ClusterBackendMap (from_cluster_map with recording dummy senders): gen_cluster_nodes,
+//        gen_cluster_slots with the given HashMap<RangeList, MigrationState>, and ClusterBackendMap::send probed for
+//        one key of every slot  -> "nodes <lines> | slots <entries> | route <runs>"
+//   pnodes <ver> <epoch> <self> <local> <peer> <switch cmds>
+//        a real proxy: metadata through UMCTL SETCLUSTER (real migration tasks are created; their control client fails,
+//        so a migrating task stays in PreCheck), importing tasks driven with real UMCTL PRECHECK/PRESWITCH/FINALSWITCH,
+//        then CLUSTER NODES, CLUSTER SLOTS and the task states read back from UMCTL INFO
+//        -> "nodes .. | slots .. | states <range list>=<state>;.."
+//   tagged layout: "-" | addr@T:s-e,s-e+T:s-e;addr@..   T in n|m|i      states: "-" | s-e,s-e=pc|pb|ps|sc|fs|cm;..
+//   canonical NODES line: addr,m|p,epoch,v1|v2=ranges (sorted);  SLOTS: host:port=ranges (sorted)
+use crate::dom::*;
+use crate::util::*;
+use std::collections::{BTreeMap, HashMap};
+use std::convert::TryFrom;
+use std::sync::Arc;
+use parking_lot::Mutex;
+use undermoon::common::cluster::{
+    ClusterName, MigrationMeta, MigrationTaskMeta, RangeList, SlotRange, SlotRangeTag,
+};
+use undermoon::common::config::ClusterConfig;
+use undermoon::common::proto::{ClusterMapFlags, ProxyClusterMeta};
+use undermoon::common::utils::{generate_slot, SLOT_NUM};
+use undermoon::common::version::UNDERMOON_MIGRATION_VERSION;
+use undermoon::migration::task::{MigrationState, SwitchArg};
+use undermoon::protocol::{Array, BulkStr, Resp, RespPacket, RespVec};
+use undermoon::proxy::backend::{CmdTask, SenderBackendError};
+use undermoon::proxy::cluster::ClusterBackendMap;
+use undermoon::proxy::command::{new_command_pair, Command};
+use undermoon::proxy::sender::{CmdTaskSender, CmdTaskSenderFactory};
+use undermoon::proxy::service::ClusterNodesVersion;
+use undermoon::proxy::session::CmdCtx;
+
+type TLayout = Vec<(String, Vec<(char, Vec<(usize, usize)>)>)>;
+
+fn parse_tlayout(tok: &str) -> TLayout {
+    if tok == "-" {
+        return vec![];
+    }
+    tok.split(';')
+        .map(|node| {
+            let mut it = node.splitn(2, '@');
+            let addr = it.next().expect("addr").to_string();
+            let rest = it.next().expect("srs");
+            let srs = if rest.is_empty() {
+                vec![]
+            } else {
+                rest.split('+')
+                    .map(|sr| {
+                        let tag = sr.chars().next().expect("tag");
+                        let rs = &sr[2..];
+                        let ranges = if rs.is_empty() {
+                            vec![]
+                        } else {
+                            rs.split(',')
+                                .map(|r| {
+                                    let mut p = r.splitn(2, '-');
+                                    let s: usize = p.next().expect("s").parse().expect("s");
+                                    let e: usize = p.next().expect("e").parse().expect("e");
+                                    (s, e)
+                                })
+                                .collect()
+                        };
+                        (tag, ranges)
+                    })
+                    .collect()
+            };
+            (addr, srs)
+        })
+        .collect()
+}
+
+fn mig_meta() -> MigrationMeta {
+    MigrationMeta {
+        epoch: 1,
+        src_proxy_address: "127.0.8.1:5299".to_string(),
+        src_node_address: "127.0.8.1:7000".to_string(),
+        dst_proxy_address: "127.0.8.2:5299".to_string(),
+        dst_node_address: "127.0.8.2:7000".to_string(),
+    }
+}
+
+fn tagged(layout: &TLayout) -> HashMap<String, Vec<SlotRange>> {
+    layout
+        .iter()
+        .map(|(a, srs)| {
+            (
+                a.clone(),
+                srs.iter()
+                    .map(|(t, rs)| SlotRange {
+                        range_list: raw_range_list(rs),
+                        tag: match t {
+                            'm' => SlotRangeTag::Migrating(mig_meta()),
+                            'i' => SlotRangeTag::Importing(mig_meta()),
+                            _ => SlotRangeTag::None,
+                        },
+                    })
+                    .collect(),
+            )
+        })
+        .collect()
+}
+
+fn parse_state(s: &str) -> MigrationState {
+    match s {
+        "pc" => MigrationState::PreCheck,
+        "pb" => MigrationState::PreBlocking,
+        "ps" => MigrationState::PreSwitch,
+        "sc" => MigrationState::Scanning,
+        "fs" => MigrationState::FinalSwitch,
+        "cm" => MigrationState::SwitchCommitted,
+        other => panic!("state {}", other),
+    }
+}
+
+fn parse_ranges(rs: &str) -> Vec<(usize, usize)> {
+    if rs.is_empty() {
+        return vec![];
+    }
+    rs.split(',')
+        .map(|r| {
+            let mut p = r.splitn(2, '-');
+            let s: usize = p.next().expect("s").parse().expect("s");
+            let e: usize = p.next().expect("e").parse().expect("e");
+            (s, e)
+        })
+        .collect()
+}
+
+fn parse_states(tok: &str) -> Vec<(Vec<(usize, usize)>, String)> {
+    if tok == "-" {
+        return vec![];
+    }
+    tok.split(';')
+        .map(|e| {
+            let mut it = e.splitn(2, '=');
+            let rs = parse_ranges(it.next().expect("ranges"));
+            (rs, it.next().expect("state").to_string())
+        })
+        .collect()
+}
+
+fn fmt_ranges(mut rs: Vec<(usize, usize)>) -> String {
+    rs.sort();
+    rs.iter()
+        .map(|(a, b)| format!("{}-{}", a, b))
+        .collect::<Vec<_>>()
+        .join(",")
+}
+
+// "<id> <addr> <flags> - 0 0 <epoch> connected <ranges..>" per line
+fn canon_nodes(text: &str) -> String {
+    let mut out = vec![];
+    for line in text.split('\n') {
+        if line.is_empty() {
+            continue;
+        }
+        let f: Vec<&str> = line.split(' ').collect();
+        if f.len() < 8 || f[0].len() != 40 || f[3] != "-" || f[4] != "0" || f[5] != "0" || f[7] != "connected" {
+            out.push(format!("badline[{}]", line));
+            continue;
+        }
+        let (addr, fk) = match f[1].find('@') {
+            Some(i) => (&f[1][..i], if &f[1][i..] == "@5299" { "v2" } else { "bad" }),
+            None => (f[1], "v1"),
+        };
+        let flag = match f[2] {
+            "myself,master" => "m",
+            "master" => "p",
+            _ => "bad",
+        };
+        let mut rs = vec![];
+        for t in &f[8..] {
+            match t.find('-') {
+                Some(i) => rs.push((t[..i].parse().expect("s"), t[i + 1..].parse().expect("e"))),
+                None => {
+                    let x: usize = t.parse().expect("slot");
+                    rs.push((x, x))
+                }
+            }
+        }
+        out.push(format!("{},{},{},{}={}", addr, flag, f[6], fk, fmt_ranges(rs)));
+    }
+    out.sort();
+    out.join(";")
+}
+
+fn canon_slots(r: &Result<RespVec, String>) -> String {
+    let arr = match r {
+        Ok(Resp::Arr(Array::Arr(a))) => a,
+        Ok(Resp::Error(_)) | Err(_) => return "err".to_string(),
+        Ok(other) => return format!("bad[{}]", resp_to_string(other)),
+    };
+    let mut m: BTreeMap<String, Vec<(usize, usize)>> = BTreeMap::new();
+    for e in arr {
+        let ok = (|| {
+            if let Resp::Arr(Array::Arr(v)) = e {
+                if v.len() != 3 {
+                    return None;
+                }
+                let s: usize = match &v[0] {
+                    Resp::Integer(b) => std::str::from_utf8(b).ok()?.parse().ok()?,
+                    _ => return None,
+                };
+                let en: usize = match &v[1] {
+                    Resp::Integer(b) => std::str::from_utf8(b).ok()?.parse().ok()?,
+                    _ => return None,
+                };
+                if let Resp::Arr(Array::Arr(n)) = &v[2] {
+                    if n.len() != 3 {
+                        return None;
+                    }
+                    let host = match &n[0] {
+                        Resp::Bulk(BulkStr::Str(b)) => String::from_utf8_lossy(b).to_string(),
+                        _ => return None,
+                    };
+                    let port = match &n[1] {
+                        Resp::Integer(b) => String::from_utf8_lossy(b).to_string(),
+                        _ => return None,
+                    };
+                    match &n[2] {
+                        Resp::Bulk(BulkStr::Str(id)) if id.len() == 40 => (),
+                        _ => return None,
+                    }
+                    return Some((format!("{}:{}", host, port), (s, en)));
+                }
+            }
+            None
+        })();
+        match ok {
+            Some((a, r)) => m.entry(a).or_default().push(r),
+            None => return "bad-entry".to_string(),
+        }
+    }
+    m.into_iter()
+        .map(|(a, rs)| format!("{}={}", a, fmt_ranges(rs)))
+        .collect::<Vec<_>>()
+        .join(";")
+}
+
+// ---------- recording dummy senders for ClusterBackendMap ----------
+struct DummySender {
+    addr: String,
+}
+impl CmdTaskSender for DummySender {
+    type Task = CmdCtx;
+    fn send(&self, cmd_task: Self::Task) -> Result<(), SenderBackendError<Self::Task>> {
+        let mut v = b"L".to_vec();
+        v.extend_from_slice(self.addr.as_bytes());
+        cmd_task.set_resp_result(Ok(Resp::Simple(v)));
+        Ok(())
+    }
+}
+struct DummyFactory;
+impl CmdTaskSenderFactory for DummyFactory {
+    type Sender = DummySender;
+    fn create(&self, address: String) -> Self::Sender {
+        DummySender { addr: address }
+    }
+}
+
+thread_local! {
+    static SLOT_KEYS: Vec<Vec<u8>> = {
+        let mut keys: Vec<Option<Vec<u8>>> = vec![None; SLOT_NUM];
+        let mut left = SLOT_NUM;
+        let mut i = 0usize;
+        while left > 0 {
+            let k = format!("b{}", i).into_bytes();
+            let s = generate_slot(&k);
+            if keys[s].is_none() {
+                keys[s] = Some(k);
+                left -= 1;
+            }
+            i += 1;
+        }
+        keys.into_iter().map(|k| k.expect("key")).collect()
+    };
+}
+
+fn version(tok: &str) -> ClusterNodesVersion {
+    if tok == "1" {
+        ClusterNodesVersion::V1
+    } else {
+        ClusterNodesVersion::V2
+    }
+}
+
+fn run_nodes(toks: &[&str]) -> String {
+    let ver = version(toks[1]);
+    let epoch: u64 = toks[2].parse().expect("epoch");
+    let self_addr = toks[3].to_string();
+    let local = tagged(&parse_tlayout(toks[4]));
+    let peer = tagged(&parse_tlayout(toks[5]));
+    let mut states: HashMap<RangeList, MigrationState> = HashMap::new();
+    for (rs, st) in parse_states(toks[6]) {
+        states.insert(raw_range_list(&rs), parse_state(&st));
+    }
+    let meta = ProxyClusterMeta::new(
+        epoch,
+        ClusterMapFlags {
+            force: false,
+            compress: false,
+        },
+        ClusterName::try_from("vc").expect("name"),
+        local,
+        peer,
+        ClusterConfig::default(),
+    );
+    let cm: ClusterBackendMap<DummySender, DummySender> =
+        ClusterBackendMap::from_cluster_map(&meta, &DummyFactory, &DummyFactory, false);
+    let text = cm.gen_cluster_nodes(self_addr.clone(), &states, ver);
+    let slots = cm.gen_cluster_slots(self_addr, &states);
+    // routing probe, one key per slot
+    let owners: Vec<String> = SLOT_KEYS.with(|keys| {
+        keys.iter()
+            .map(|k| {
+                let cmd = Command::new(Box::new(RespPacket::Data(bulk_cmd(&[b"GET", k]))));
+                let (s, r) = new_command_pair(&cmd);
+                let ctx = CmdCtx::new(cmd, s, 0, false);
+                let _ = cm.send(ctx);
+                match futures::executor::block_on(r) {
+                    Ok(reply) => match reply.into_resp_vec() {
+                        Resp::Simple(b) => String::from_utf8_lossy(&b).to_string(),
+                        Resp::Error(e) => {
+                            let t = String::from_utf8_lossy(&e).to_string();
+                            if t.starts_with("MOVED ") {
+                                format!("M{}", t.splitn(3, ' ').nth(2).unwrap_or("?"))
+                            } else if t.starts_with("slot not covered") {
+                                "-".to_string()
+                            } else {
+                                format!("E[{}]", t.replace(' ', "_"))
+                            }
+                        }
+                        other => format!("R[{}]", resp_to_string(&other).replace(' ', "_")),
+                    },
+                    Err(_) => "canceled".to_string(),
+                }
+            })
+            .collect()
+    });
+    format!(
+        "nodes {} | slots {} | route {}",
+        canon_nodes(&text),
+        canon_slots(&slots),
+        rle(&owners)
+    )
+}
+
+fn state_code(s: &str) -> &'static str {
+    match s {
+        "PRE_CHECK" => "pc",
+        "PRE_BLOCKING" => "pb",
+        "PRE_SWITCH" => "ps",
+        "SCANNING" => "sc",
+        "FINAL_SWITCH" => "fs",
+        "SWITCH_COMMITTED" => "cm",
+        _ => "??",
+    }
+}
+
+fn find_mgr_lines(r: &RespVec, out: &mut Vec<String>) {
+    // UMCTL INFO: [.., "Migration", [ "name: ..", "<n> <s-e>.. <src> -> <dst> <STATE>", .. ]]
+    if let Resp::Arr(Array::Arr(v)) = r {
+        for (i, e) in v.iter().enumerate() {
+            if let Resp::Bulk(BulkStr::Str(b)) = e {
+                if b.as_slice() == b"Migration" {
+                    if let Some(Resp::Arr(Array::Arr(lines))) = v.get(i + 1) {
+                        for l in lines {
+                            if let Resp::Bulk(BulkStr::Str(s)) = l {
+                                out.push(String::from_utf8_lossy(s).to_string());
+                            }
+                        }
+                    }
+                }
+            }
+        }
+    }
+}
+
+fn run_pnodes(rt: &tokio::runtime::Runtime, toks: &[&str]) -> String {
+    let cfgs = format!("ar=0,dr=-,mr=-,enc=c,name=1,ver={}", toks[1]);
+    let cfg = parse_cfg(&cfgs);
+    let epoch: u64 = toks[2].parse().expect("epoch");
+    let local = tagged(&parse_tlayout(toks[4]));
+    let peer = tagged(&parse_tlayout(toks[5]));
+    let cmds = parse_states(toks[6]);
+    rt.block_on(async {
+        let p = new_proxy(&cfg);
+        let r = set_cluster(&p.handler, true, epoch, local, peer).await;
+        if r != "S 4f4b" {
+            return format!("setcluster-failed {}", r);
+        }
+        for (rs, st) in cmds {
+            let sub = match st.as_str() {
+                "pc" => "PRECHECK",
+                "ps" => "PRESWITCH",
+                "cm" => "FINALSWITCH",
+                other => panic!("cannot drive to {}", other),
+            };
+            let arg = SwitchArg {
+                version: UNDERMOON_MIGRATION_VERSION.to_string(),
+                meta: MigrationTaskMeta {
+                    cluster_name: ClusterName::try_from("vc").expect("name"),
+                    slot_range: SlotRange {
+                        range_list: raw_range_list(&rs),
+                        tag: SlotRangeTag::Importing(mig_meta()),
+                    },
+                },
+            };
+            let mut elems = vec![Some(b"UMCTL".to_vec()), Some(sub.as_bytes().to_vec())];
+            elems.extend(arg.into_strings().into_iter().map(|s| Some(s.into_bytes())));
+            match send_cmd(&p.handler, elems).await {
+                Sent::Reply(Resp::Simple(_)) => (),
+                Sent::Reply(other) => return format!("switch-failed {}", resp_to_string(&other)),
+                Sent::Canceled => return "switch-canceled".to_string(),
+            }
+        }
+        let nodes = match send_cmd(&p.handler, vec![Some(b"CLUSTER".to_vec()), Some(b"NODES".to_vec())]).await {
+            Sent::Reply(Resp::Bulk(BulkStr::Str(b))) => canon_nodes(&String::from_utf8_lossy(&b)),
+            _ => "bad-reply".to_string(),
+        };
+        let slots = match send_cmd(&p.handler, vec![Some(b"CLUSTER".to_vec()), Some(b"SLOTS".to_vec())]).await {
+            Sent::Reply(r) => canon_slots(&Ok(r)),
+            Sent::Canceled => "canceled".to_string(),
+        };
+        let mut lines = vec![];
+        if let Sent::Reply(r) = send_cmd(&p.handler, vec![Some(b"UMCTL".to_vec()), Some(b"INFO".to_vec())]).await {
+            find_mgr_lines(&r, &mut lines);
+        }
+        let mut sts = vec![];
+        for l in lines {
+            if l.starts_with("name:") {
+                continue;
+            }
+            // "<n> <s-e> .. <src> -> <dst> <STATE>"
+            let f: Vec<&str> = l.split(' ').collect();
+            let n: usize = f[0].parse().unwrap_or(0);
+            let rs: Vec<&str> = f[1..1 + n].to_vec();
+            sts.push(format!("{}={}", rs.join(","), state_code(f[f.len() - 1])));
+        }
+        sts.sort();
+        let _ = Arc::new(Mutex::new(()));
+        format!(
+            "nodes {} | slots {} | states {}",
+            nodes,
+            slots,
+            if sts.is_empty() { "-".to_string() } else { sts.join(";") }
+        )
+    })
+}
+
+pub fn run_case(rt: &tokio::runtime::Runtime, toks: &[&str]) -> String {
+    match toks[0] {
+        "nodes" => run_nodes(toks),
+        "pnodes" => run_pnodes(rt, toks),
+        k => format!("unknown-kind {}", k),
+    }
 }
